@@ -85,6 +85,32 @@ def _same(a, b):
     return a == b or (math.isnan(a) and math.isnan(b))
 
 
+def _unconverged_fit(pyhf, calc, fam, case, tested, asimov_mu, data, fdata, asimov_data, model, delta):
+    """Name of the first of the five fits behind a hypothesis test (taken from the calculator the test returned)
+    whose objective exceeds the closed-form optimum on its dataset by more than delta; None if all converged."""
+    fp = calc.fitted_pars
+    tl = pyhf.tensorlib
+    fasimov = list(asimov_data) if case["family"] != "A" else list(asimov_data)
+    plan = [
+        ("asimov-generating conditional fit", fp.asimov_pars, data, fdata, asimov_mu),
+        ("conditional fit to data", fp.fixed_poi_fit_to_data, data, fdata, tested),
+        ("free fit to data", fp.free_fit_to_data, data, fdata, None),
+        ("conditional fit to Asimov data", fp.fixed_poi_fit_to_asimov, asimov_data, fasimov, tested),
+        ("free fit to Asimov data", fp.free_fit_to_asimov, asimov_data, fasimov, None),
+    ]
+    for name, pars, full, fam_data, poi in plan:
+        try:
+            got = float(backends.tonp(pyhf.infer.mle.twice_nll(pars, tl.astensor(full), model)).reshape(-1)[0])
+            ref = fam.unconditional(fam_data) if poi is None else fam.conditional(poi, fam_data)
+        except Exception:  # noqa: BLE001 - no diagnosis possible: keep the verdict
+            return None
+        if ref[0] is None:
+            return None
+        if got > 2 * ref[1] + delta:
+            return name
+    return None
+
+
 def run_case(case, ctx):
     import pyhf
 
@@ -259,6 +285,15 @@ def run_case(case, ctx):
             got = {"main": vals["main"], "t0": vals["tails"][0], "t1": vals["tails"][-1]}
             for i in range(5):
                 got[f"b{i}"] = vals["band"][i]
+            bad = [k for k, v in got.items() if not (lo[k] - (1e-9 + 1e-6 * hi[k]) <= v <= hi[k] + (1e-9 + 1e-6 * hi[k]))]
+            if bad and okA:
+                which = _unconverged_fit(pyhf, calc, fam, case, 0.0 if is_q0 else mu, asimov_mu, data, fdata, ga, model, delta)
+                if which:
+                    # the envelope presupposes fits converged to `delta`; this one is not (optimiser limitation
+                    # recorded under C05), the values computed from it say nothing about hypotest
+                    ctx.excluded(f"analytic comparison skipped: {which} ended above the closed-form optimum by more "
+                                 f"than {delta} ({case['optimizer']}; optimiser limitation recorded under C05)")
+                    got = {}
             for k, v in got.items():
                 w = 1e-9 + 1e-6 * hi[k]
                 ok = lo[k] - w <= v <= hi[k] + w
